@@ -15,6 +15,7 @@ type pipe struct {
 	eof    bool  // writer side closed: readers drain then get io.EOF
 	rdErr  error // reads fail immediately with this error
 	wrErr  error // writes fail immediately with this error
+	stall  bool  // writes block until the stall is lifted (or the pipe fails)
 	limit  int   // >0: writes block while len(buf) >= limit
 	total  int64 // bytes ever written
 	pieces []int // read piece sizes (cyclic); empty = unlimited
@@ -71,6 +72,10 @@ func (p *pipe) write(b []byte) (int, error) {
 		}
 		if p.eof {
 			return written, io.ErrClosedPipe
+		}
+		if p.stall {
+			p.cond.Wait()
+			continue
 		}
 		if p.limit > 0 && len(p.buf) >= p.limit {
 			p.cond.Wait()
@@ -180,6 +185,23 @@ func (d *Duplex) RelayClosed() bool {
 // FailRelayWrites makes every further write by the relay toward the client
 // fail (the relay's reads are unaffected).
 func (d *Duplex) FailRelayWrites() { d.fromRelay.fail(nil, ErrInjected) }
+
+// StallRelayWrites makes every write by the relay toward the client block (a
+// peer whose receive path has stalled) until FailRelayWrites, ResumeRelayWrites
+// or the end of the case.
+func (d *Duplex) StallRelayWrites() {
+	d.fromRelay.mu.Lock()
+	d.fromRelay.stall = true
+	d.fromRelay.mu.Unlock()
+}
+
+// ResumeRelayWrites lifts StallRelayWrites.
+func (d *Duplex) ResumeRelayWrites() {
+	d.fromRelay.mu.Lock()
+	d.fromRelay.stall = false
+	d.fromRelay.cond.Broadcast()
+	d.fromRelay.mu.Unlock()
+}
 
 // FailRelayReads makes the relay's next read from the client fail with a
 // non-EOF error.
